@@ -25,6 +25,7 @@ func init() {
 			{"C12-R1", "every routing field is consumed", c12r1},
 			{"C12-R2", "catch-all detection sees every restriction", c12r2},
 			{"C12-R3", "rule order preserved", c12r3},
+			{"C12-R4", "per-call route memos are keyed by everything that varies", c12r4},
 		},
 	})
 }
@@ -254,4 +255,32 @@ func flagTrueOnlyUnder(fn *ssa.Function, cond ssa.Value, edges []Edge, breakOnTr
 	_ = ls
 	_ = types.Typ
 	return walk(cond)
+}
+
+
+// C12-R4: the route and listener builders memoise translated routes / looked-up lists in maps created per call and
+// filled inside loops (over servers, gateways, virtual services). Every loop that encloses such a memo site (but not the
+// map's creation) and that the memoised value depends on must also flow into the key; otherwise the routes translated
+// for one server/gateway are reused for another.
+func c12r4(c *Ctx) {
+	p := c.P
+	pkgs := map[string]bool{istioMod + "/" + pkgCore: true, istioMod + "/" + pkgRoute: true}
+	n := 0
+	for _, fn := range p.AllFuncs {
+		if !pkgs[funcPkgPath(fn)] || strings.HasSuffix(p.Fset.Position(fn.Pos()).Filename, "_test.go") {
+			continue
+		}
+		for _, m := range memoSites(p, fn) {
+			if !m.local {
+				continue
+			}
+			n++
+			c.Check("per-call memo key covers the enclosing loops the value depends on: "+stableFnName(fn), m.lookup.Pos(), len(m.missing) == 0,
+				"a value computed inside nested loops is memoised under a key that does not depend on "+strings.Join(m.missing, ", ")+" although the value does: what was translated for one iteration (e.g. one gateway server, with its own name, port and TLS setting) is reused for the others")
+		}
+	}
+	c.Check("per-call memo sites found in the route/listener builders", token.NoPos, n >= 2, "fewer memo sites than confirmed by hand (buildGatewayHTTPRouteConfig: virtual services per gateway, routes per gateway and virtual service)")
+	why := memoSelfTest()
+	c.Check("positive control: the memo detector reports the incomplete keys of its fixture and not the complete ones", token.NoPos, why == "", why)
+	c.Floor(4)
 }
